@@ -129,6 +129,9 @@ def eval_prog(ld, st):
         check_replaceable_callee(ld, sig, pl, st, case)
         return
     rshape = shape_of(sig)
+    if pr.route == 'kpartial':
+        # the translated helper's own optional keyword-only parameter: never passed by the driver
+        rshape = tuple(p for p in rshape if not (p[0] == 'opt_' and p[1] == KWO and p[2]))
     known = set(nm for s_ in discovery.input_shapes(ld) for nm in space.names_of(s_))
     alien = [p[0] for p in rshape if p[0] not in known]
     if alien:
